@@ -319,13 +319,13 @@ impl<T> TooDeeOpsMut<T> for TooDee<T> {
     /// assert_eq!(toodee[(0, 2)], 1);
     /// ```
     fn swap_rows(&mut self, mut r1: usize, mut r2: usize) {
-        if r1 == r2 {
-            return;
-        }
         if r2 < r1 {
             mem::swap(&mut r1, &mut r2);
         }
         assert!(r2 < self.num_rows);
+        if r1 == r2 {
+            return;
+        }
         let num_cols = self.num_cols;
         unsafe {
             let (first, rest) = self.data.get_unchecked_mut(r1 * num_cols..).split_at_mut(num_cols);
